@@ -33,6 +33,8 @@ class Ctx:
         self.violations = []   # (signature, what, replay_obj)
         self.notes = []
         self.tlc_runs = []
+        import threading
+        self._lock = threading.Lock()
 
     # ---------------------------------------------------------------- files
     def path(self, *p):
@@ -78,8 +80,9 @@ class Ctx:
         """Run TLC on spec/<module>.tla with the given cfg text inside the scratch copy of spec/.
         Returns a dict: status in {ok, invariant, deadlock, property, assumption, error}, counts, output."""
         d = self.path("spec")
-        if not os.path.isdir(d):
-            shutil.copytree(SPEC, d)
+        with self._lock:
+            if not os.path.isdir(d):
+                shutil.copytree(SPEC, d)
         cfg = os.path.join(d, name + ".cfg")
         with open(cfg, "w") as f:
             f.write(cfg_text)
